@@ -391,3 +391,39 @@ def c07(tier, seed):
         "and the digest = last 28/32/48/64 bytes. R7.5: Default hands the specified IV (output size in the last bytes) to the "
         "compressor. R7.6: update feeds exactly the complete blocks and counts them.",
         trusted_base=["spec/groestl.py", "engine/models.py", "engine/bv.py"], coverage_extra={"exhaustive": True})
+
+
+from . import check_jh
+
+
+@check("C06")
+def c06(tier, seed):
+    r = Report("C06", tier, TV, seed)
+    cfgs = ["K1", "K2"] if tier == "thorough" else ["K1"]
+    jobs = []
+    for c in cfgs:
+        f = facts.load(c)
+        jobs += [(check_jh.c06_ss, (c,)), (check_jh.c06_l, (c,)), (check_jh.c06_default, (c,)), (check_jh.c06_update, (c,)),
+                 (check_jh.c06_dispatch, (c,))]
+        for m in check_jh.machines(f):
+            jobs.append((check_jh.c06_f8, (c, m)))
+        for name in check_jh.HASHERS:
+            for lo in range(0, 64, 16):
+                jobs.append((check_jh.c06_finalize, (c, name, _range_fn(lo, lo + 16))))
+    rets = par.run(r, jobs)
+    nf = sum(x for (fn, _), x in zip(jobs, rets) if fn is check_jh.c06_finalize and x)
+    n8 = sum(x for (fn, _), x in zip(jobs, rets) if fn is check_jh.c06_f8 and x)
+    r.floor("F8 instances (machines)", n8, 4 if tier == "quick" else 5)
+    r.floor("finalisation specialisations", nf, 256 * len(cfgs))
+    r.assumptions = ["spec/jh.py is the nibble-oriented definition of the JH specification (S-boxes, L, P8, grouping, R6-generated round constants, H(0) = F8(H(-1), 0)), validated against the JH KATs",
+                     "in the whole-F8 comparison the S-box layer is an uninterpreted nibble function on both sides; R6.1 establishes by complete truth tables (256 columns x 32 rows per machine) that the repository's bit-sliced `ss` is exactly that function",
+                     "message length below 2^61 bytes"]
+    return r.finish(
+        "R6.1 ss<M> = S0/S1 selected by the constant bit on every bit column (complete truth tables; support check). "
+        "R6.2 l<M> = the MDS map L over GF(2^4). R6.3 f8_impl<M> on a symbolic 1024-bit state and 512-bit block, for every "
+        "Machine, equals F8 of the specification computed nibble-wise (grouping, 42 rounds of S-layer, L, P8 with constants "
+        "generated by R6 from sqrt(2), de-grouping) - which also pins all 42 bit-sliced round constants and the swap schedule. "
+        "R6.6 the same through the run-time dispatcher. R6.5 the four initial values equal F8(H(-1), 0) computed by the "
+        "reference model. R6.4 finalize_into_dirty for every buffer position: one block for aligned messages, two otherwise, "
+        "0x80/zeros/big-endian bit length, digest = tail of the state. R6.7 update counts bytes and feeds complete blocks.",
+        trusted_base=["spec/jh.py", "engine/models.py", "engine/bv.py"], coverage_extra={"exhaustive": True})
